@@ -221,3 +221,34 @@ Definition so_q_insert_edge (h : so_db) (f t : Z) : cprog (so_db * option Z) :=
     cp_commit id ;;~
     CRet (h1, Some e)
   end.
+
+(* ------------------------------------------------------------------------- *)
+(* histories of core operations                                               *)
+(* ------------------------------------------------------------------------- *)
+Inductive so_op :=
+| SoInsertNode                                   (* DbImpl::insert_node *)
+| SoInsertEdge (f t : Z)                         (* DbImpl::insert_edge *)
+| SoReserve (id : Z) (len : N)                   (* DbImpl::reserve_key_value_capacity *)
+| SoInsertKeyValue (id : Z) (x : kv)             (* DbImpl::insert_key_value, key not indexed *)
+| SoInsertOrReplace (id : Z) (x : kv).           (* DbImpl::insert_or_replace_key_value, keys not indexed *)
+
+(* the observation: the id an insertion returns / the replaced pair *)
+Inductive so_out := SoUnit | SoId (i : Z) | SoErr | SoOld (o : option kv).
+
+Definition so_op_run (h : so_db) (o : so_op) : cprog (so_db * so_out) :=
+  match o with
+  | SoInsertNode => r <~ so_insert_node h ;; CRet (fst r, SoId (snd r))
+  | SoInsertEdge f t => r <~ so_insert_edge h f t ;; CRet (fst r, match snd r with Some i => SoId i | None => SoErr end)
+  | SoReserve id len => h' <~ so_reserve_key_value_capacity h id len ;; CRet (h', SoUnit)
+  | SoInsertKeyValue id x => h' <~ so_insert_key_value h id x ;; CRet (h', SoUnit)
+  | SoInsertOrReplace id x => r <~ so_insert_or_replace_key_value h id x ;; CRet (fst r, SoOld (snd r))
+  end.
+
+Fixpoint so_ops_run (h : so_db) (l : list so_op) : cprog (so_db * list so_out) :=
+  match l with
+  | [] => CRet (h, [])
+  | o :: t =>
+    r <~ so_op_run h o ;;
+    r' <~ so_ops_run (fst r) t ;;
+    CRet (fst r', snd r :: snd r')
+  end.
